@@ -438,7 +438,7 @@ example : pickBestOfDirectly [(false, true), (true, true)] (fun _ => 0) = some (
 
 /-- Constant alpha in modes 4 and 5 (`compress_color_separate_alpha_with_rotation`, bc7.rs 534–545): whatever
 `Alpha::<A>::round / floor / ceil` return (f32, parameters here), if the guard `round.promote().a == a` holds both
-stored endpoints promote to exactly `a`, and every interpolation weight returns `a`; for `a = 255` the guard admits
+stored endpoints promote to exactly `a`, and every interpolation weight returns `a`; for `a = 255` the guard allows
 exactly the all-ones endpoint (63 in mode 4, 255 in mode 5).  The other branch (floor / ceil) is float-dependent. -/
 theorem bc7_single_alpha_guard (A a round floor ceil : Nat) :
     ((singleAlpha A a round floor ceil).2 = true → ∀ w, w ≤ 64 →
